@@ -41,6 +41,9 @@ lookup chainsame { sub [a b c] [a b c] e' lookup single; sub c' lookup single [b
 lookup ctxsame { sub [a c]' lookup single [a c]' lookup single; } ctxsame;
 lookup chainpossame { pos [b d e] [b d e] a' lookup singlepos1 [c f] [c f]; } chainpossame;
 lookup revsame { rsub [a b d] [a b d] c' [e f] [e f] by f; } revsame;
+# reverse chaining over several covered glyphs with different substitutes (the coverage-indexed Substitute array)
+lookup revmulti { rsub [d e] [a b c]' by [f a b]; rsub [c e f]' [a] by [d f e]; } revmulti;
+lookup extrevmulti useExtension { rsub [b d f]' by [a c e]; } extrevmulti;
 # the same kinds of rules inside Extension lookups (GSUB type 7 / GPOS type 9 wrap the real subtable)
 lookup extpair useExtension { pos b c -31; pos e a -32; pos [c d] [e f] -33; } extpair;
 lookup extsinglepos useExtension { pos d 44; pos a 45; pos f 46; } extsinglepos;
@@ -51,7 +54,7 @@ lookup filt { lookupflag UseMarkFilteringSet @marks; pos a acute -10; } filt;
 feature kern { lookup singlepos1; lookup singlepos2; lookup pair1; lookup pair2; lookup curs; lookup chainpos; lookup chainpossame; lookup filt; lookup extpair; lookup extsinglepos; } kern;
 feature mark { lookup mkbase; lookup mklig; } mark;
 feature mkmk { lookup mkmk; } mkmk;
-feature liga { lookup multi; lookup alt; lookup liga; lookup chainsub; lookup rev; lookup chainsame; lookup ctxsame; lookup revsame; lookup extsingle; lookup extchain; lookup extliga; } liga;
+feature liga { lookup multi; lookup alt; lookup liga; lookup chainsub; lookup rev; lookup chainsame; lookup ctxsame; lookup revsame; lookup extsingle; lookup extchain; lookup extliga; lookup revmulti; lookup extrevmulti; } liga;
 table GDEF {
   GlyphClassDef [a b c d e f], [f_i], [acute grave dot], ;
   LigatureCaretByPos f_i 300;
